@@ -58,6 +58,30 @@ def child_env(mode):
 
 
 # ------------------------------------------------------------------ tranche
+def pre_steps(mod, mode, tier):
+    """deterministic steps every tranche parent performs before forking its chunk processes
+    (and every chunk replay performs before its runs): JIT warm-up so that children inherit
+    compiled kernels; INTERP line-reach probe.  Returns the reach table (INTERP) or None."""
+    import core
+    reach = None
+    if mode == "JIT" and not getattr(mod, "NO_WARMUP", False):
+        nwarm = getattr(mod, "WARMUP_RUNS", 60)
+        for i in range(nwarm):
+            rng = core.run_rng("warmup", mod.PROP_ID, i)
+            cfg = mod.gen_config(rng, tier)
+            try:
+                core.execute(mod.RunClass, cfg, rng=rng, max_steps=min(cfg["steps"], 40))
+            except Exception:
+                pass
+        if hasattr(mod, "warm_extra"):
+            mod.warm_extra()
+        if hasattr(mod, "drain_batch_stats"):
+            mod.drain_batch_stats()
+    if mode == "INTERP" and hasattr(sys, "monitoring") and not os.environ.get("VERIF_FILTER"):
+        reach = line_reach(mod, tier)
+    return reach
+
+
 def cmd_tranche(a):
     import core
     import seams
@@ -66,22 +90,8 @@ def cmd_tranche(a):
     t0 = time.time()
     if hasattr(mod, "setup"):
         mod.setup()
-    # warm-up in the parent so forked workers inherit compiled kernels
-    if a.mode == "JIT" and not getattr(mod, "NO_WARMUP", False):
-        nwarm = getattr(mod, "WARMUP_RUNS", 60)
-        for i in range(nwarm):
-            rng = core.run_rng("warmup", mod.PROP_ID, i)
-            cfg = mod.gen_config(rng, a.tier)
-            try:
-                core.execute(mod.RunClass, cfg, rng=rng, max_steps=min(cfg["steps"], 40))
-            except Exception:
-                pass
-        if hasattr(mod, "drain_batch_stats"):
-            mod.drain_batch_stats()
+    reach = pre_steps(mod, a.mode, a.tier)
     t_warm = time.time() - t0
-    reach = None
-    if a.mode == "INTERP" and hasattr(sys, "monitoring") and not os.environ.get("VERIF_FILTER"):
-        reach = line_reach(mod, a.tier)
     t1 = time.time()
     if hasattr(mod, "run_tranche"):
         merged = mod.run_tranche(a.seed, a.tier, a.lo, a.hi, a.workers)
@@ -121,7 +131,7 @@ def cmd_tranche(a):
             res = {"cfg": v["cfg"], "ops": v["ops"], "violation": vio}
         core.write_replay(path, mod.PROP_ID, a.mode, a.seed, v["idx"], res,
                           extra={"original_steps": len(v["ops"])})
-        reports.append({"oracle": vio["oracle"], "replay": path, "idx": v["idx"],
+        reports.append({"oracle": vio["oracle"], "replay": path, "idx": v["idx"], "mode": a.mode,
                         "steps": len(res["ops"]), "detail": res["violation"].get("detail")})
     merged["reports"] = reports
     merged["known_hits"] = known_hits
@@ -214,6 +224,23 @@ def cmd_replay(a):
         mod.setup()
     if doc.get("batch"):
         return replay_batch(doc, a.path)
+    if doc.get("kind") == "chunk":
+        # a violation that depends on process-global state left behind by EARLIER RUNS of the
+        # same process: the history is the parent's pre-steps plus the listed run indices
+        pre_steps(mod, mode, doc["tier"])
+        last = None
+        for idx in doc["runs"]:
+            rng = core.run_rng(doc["seed"], mod.PROP_ID, idx)
+            cfg = mod.gen_config(rng, doc["tier"])
+            last = core.execute(mod.RunClass, cfg, rng=rng, max_steps=cfg["steps"])
+        v = last["violation"] if last else None
+        if v is not None and v["oracle"] == doc["oracle"]:
+            print("violation in run %d after %d earlier runs of the same process: %s %s" % (
+                doc["runs"][-1], len(doc["runs"]) - 1, v["oracle"], json.dumps(v["detail"], default=repr)[:300]))
+            print("VIOLATION property=%s replay=%s" % (doc["property"], a.path))
+            return 1
+        print("no violation reproduced")
+        return 0
     r = core.execute(mod.RunClass, doc["cfg"], ops=doc["ops"], want_log=a.log)
     if a.log:
         for line in r["log"]:
@@ -324,6 +351,45 @@ def cmd_check(a):
     return finish_check(pid, seed, tier, parts, wall, (n_interp, n_jit))
 
 
+def chunk_replay(pid, seed, tier, r):
+    """build (and shorten) a process-history replay for a violation that needs earlier runs."""
+    import core
+    lo, _ = core.chunk_bounds(pid, r["idx"])
+    path = r["replay"].replace(".json", "-history.json")
+
+    def attempt(runs):
+        doc = {"property": pid, "kind": "chunk", "mode": r["mode"], "seed": seed, "tier": tier,
+               "runs": runs, "oracle": r["oracle"],
+               "note": "the violation needs process-global state left by the earlier runs listed here "
+                       "(after the deterministic pre-steps of the tranche parent)"}
+        with open(path, "w") as f:
+            json.dump(doc, f, indent=1)
+        return subprocess.call([sys.executable, os.path.abspath(__file__), "replay", path],
+                               stdout=subprocess.DEVNULL, cwd=VERIF) == 1
+    runs = list(range(lo, r["idx"] + 1))
+    if not attempt(runs):
+        try:
+            os.remove(path)
+        except OSError:
+            pass
+        return None
+    # shortest suffix of the history that still reproduces (binary search, a few trials)
+    good = runs
+    a, b = 0, len(runs) - 1
+    trials = 0
+    while a < b and trials < 7:
+        mid = (a + b + 1) // 2
+        cand = runs[mid:]
+        trials += 1
+        if attempt(cand):
+            good = cand
+            a = mid
+        else:
+            b = mid - 1
+    attempt(good)
+    return path
+
+
 def finish_check(pid, seed, tier, parts, wall, sizes):
     import core
     from collections import Counter
@@ -372,6 +438,7 @@ def finish_check(pid, seed, tier, parts, wall, sizes):
     # replay verification of every reported violation in a fresh interpreter
     verified = []
     harness_error = False
+    chunk_failures = 0
     for r in reports:
         if r["idx"] < 0:
             verified.append(r)
@@ -380,8 +447,19 @@ def finish_check(pid, seed, tier, parts, wall, sizes):
                              stdout=subprocess.DEVNULL, cwd=VERIF)
         if rc == 1:
             verified.append(r)
+            continue
+        # not reproducible from its own operations alone: try the process history
+        # (earlier runs of the same chunk process may have left global state behind)
+        if chunk_failures >= 2:
+            continue
+        cpath = chunk_replay(pid, seed, tier, r)
+        if cpath:
+            r = dict(r, replay=cpath, steps=-1)
+            verified.append(r)
         else:
-            print("HARNESS-ERROR: violation %s did not reproduce from %s (rc=%s)" % (r["oracle"], r["replay"], rc))
+            chunk_failures += 1
+            print("HARNESS-ERROR: violation %s did not reproduce from %s (rc=%s) nor from its process history" % (
+                r["oracle"], r["replay"], rc))
             harness_error = True
     findings = core.load_known_findings()
     for f in findings:
